@@ -54,24 +54,25 @@ theorem merge_ok {a b : Res D} (j : D → D → D) (h : (Res.merge j a b).ok = t
     a.ok = true ∧ b.ok = true := by
   simpa [Res.merge] using h
 
-theorem loopHead_ge (h : Sound sem dom Rel) (f : D → Res D) :
-    ∀ n d s, Rel d s → Rel (loopHead dom.join dom.le f n d) s := by
+theorem loopFix_spec {D : Type} (j : D → D → D) (le : D → D → Bool) (f : D → Res D) :
+    ∀ n h, (loopFix j le f n h).2.1 = f (loopFix j le f n h).1 ∧
+      ((loopFix j le f n h).2.2 = true →
+        leO le (f (loopFix j le f n h).1).norm (loopFix j le f n h).1 = true ∧
+        leO le (f (loopFix j le f n h).1).brk (loopFix j le f n h).1 = true) := by
   intro n
   induction n with
-  | zero => intro d s hd; exact hd
+  | zero =>
+    intro h
+    refine ⟨rfl, fun hs => ?_⟩
+    simpa [loopFix] using hs
   | succ n ih =>
-    intro d s hd
-    simp only [loopHead]
+    intro h
+    simp only [loopFix]
     split
-    · exact hd
-    apply ih
-    have h1 : Rel (match (f d).norm with | some x => dom.join d x | none => d) s := by
-      cases (f d).norm with
-      | none => exact hd
-      | some x => exact h.join_l _ _ _ hd
-    cases (f d).brk with
-    | none => exact h1
-    | some x => exact h.join_l _ _ _ h1
+    · rename_i hst
+      refine ⟨rfl, fun _ => ?_⟩
+      simpa using hst
+    · exact ih _
 
 theorem leO_sound (h : Sound sem dom Rel) {a : Option D} {b : D} {s : S}
     (hle : leO dom.le a b = true) (hc : CovO Rel a s) : Rel b s := by
@@ -150,9 +151,12 @@ theorem analyze_sound (h : Sound sem dom Rel) :
   | loop b ih =>
     intro d s o hd hok
     simp only [analyze, Bool.and_eq_true] at hok
-    obtain ⟨⟨⟨hokb, hle0⟩, hleN⟩, hleB⟩ := hok
+    obtain ⟨⟨hokb, hle0⟩, hst⟩ := hok
+    obtain ⟨hspec, hstable⟩ := loopFix_spec dom.join dom.le (analyze dom b) 8 d
+    obtain ⟨hleN, hleB⟩ := hstable hst
     simp only [exec, analyze]
-    generalize hH : loopHead dom.join dom.le (analyze dom b) 8 d = H at *
+    rw [hspec] at hokb ⊢
+    generalize (loopFix dom.join dom.le (analyze dom b) 8 d).1 = H at *
     have hH0 : Rel H s := h.le_sound _ _ _ hle0 hd
     -- inner induction on the iteration count
     have key : ∀ (n : Nat) (o : Oracle) (s : S), Rel H s →
